@@ -273,6 +273,9 @@ def check_proofs(prop):
     ok, out = build_coq(prop)
     hits = forbidden_scan()
     failures = []
+    if not obs:
+        failures.append("no proof obligations registered for %s (obligations.d/%s.json missing or empty): "
+                        "nothing is shown to hold" % (prop, prop))
     if hits:
         failures.append("forbidden constructs: " + "; ".join(hits[:5]))
     vo = os.path.join(COQ, "Properties", prop + ".vo")
